@@ -13,6 +13,7 @@ import (
 	"fmt"
 	"os"
 	"runtime"
+	"runtime/debug"
 	"strings"
 	"sync"
 	"sync/atomic"
@@ -32,7 +33,20 @@ var (
 	findings    int32
 )
 
+var maxTotalWait time.Duration
+
+func noteTotalWait(d time.Duration) {
+	statMu.Lock()
+	if d > maxTotalWait {
+		maxTotalWait = d
+	}
+	statMu.Unlock()
+}
+
 func noteWait(d time.Duration) {
+	if d > 5*time.Second && os.Getenv("VERIF_C12_DEBUG") != "" {
+		fmt.Fprintf(os.Stderr, "LONGWAIT %v\n%s\n", d, debug.Stack())
+	}
 	statMu.Lock()
 	if d > maxWaitSeen {
 		maxWaitSeen = d
@@ -174,7 +188,7 @@ func main() {
 	if only := os.Getenv("VERIF_C12_ONLY"); only != "" { // development aid: run one family
 		var cs, ls []kase
 		for _, k := range cases {
-			if strings.Contains(only, k.family) {
+			if strings.Contains(only, k.family) && (os.Getenv("VERIF_C12_INDEX") == "" || os.Getenv("VERIF_C12_INDEX") == fmt.Sprint(k.rig, k.index)) {
 				cs = append(cs, k)
 			}
 		}
@@ -227,6 +241,7 @@ func main() {
 	statMu.Lock()
 	run.Set("watchdog_ms", watchdog.Milliseconds())
 	run.Set("max_wait_observed_ms", float64(maxWaitSeen.Microseconds())/1000)
+	run.Set("max_settle_duration_ms", float64(maxTotalWait.Microseconds())/1000)
 	run.Set("max_frame_observed", maxFrame)
 	statMu.Unlock()
 	finishEvidence()
@@ -251,7 +266,7 @@ func noteScript(sc *fscript) {
 
 func finishEvidence() {
 	run.Assume("Oracle: the flow-control ledger kept by the raw-frame peer (x/net v0.19.0 Framer). An increase of SETTINGS_INITIAL_WINDOW_SIZE / SETTINGS_MAX_FRAME_SIZE counts from the moment the peer sends it, a decrease from the moment the implementation's SETTINGS ACK is read; a PING round trip started after a SETTINGS frame also counts as its acknowledgement (frames are processed in order).")
-	run.Assume("'Delivers all queued data once window becomes available' is decided as bounded progress: the bytes the ledger allows must arrive within a 10 s watchdog (observed latency is in max_wait_observed_ms); an expiry is re-run once in isolation before it is reported.")
+	run.Assume("'Delivers all queued data once window becomes available' is decided as bounded progress: the bytes the ledger allows must arrive and the watchdog expires when no frame at all has arrived for 10 s (max_wait_observed_ms = longest gap without a frame while bytes were due, max_settle_duration_ms = longest complete wait); an expiry is re-run once in isolation before it is reported.")
 	run.Assume(fmt.Sprintf("Credit bound: pkg/http2/flow.go inflow.add withholds a WINDOW_UPDATE only while the unsent credit is < inflowMinRefresh (4096) and < the window currently available to the peer, so at a quiescent point with every stream closed the un-returned connection-level credit must be <= %d bytes, independent of the number of streams.", creditBound))
 	run.Assume("Quiescent point for the credit bound = every handler / client goroutine of the batch has returned, every stream of the batch is closed, and one PING round trip has completed (WINDOW_UPDATE is a control frame and precedes the PING ACK).")
 	run.Assume("The transport's connection receive window is fixed at 1 GiB + 65535 on this toolchain (go1.23: no http.HTTP2Config), so connection-level overshoot of the transport is not driven; its stream window (4 MiB) is. SETTINGS-induced window overflow is only asserted for the server (the property text does not name it; the transport's reaction is recorded in transport-settings-overflow-*).")
